@@ -6,8 +6,8 @@ import re
 from engine import core, tlc, tracecheck
 
 ADAPTER = "harness.adapters_c05:Adapter"
-ACTIONS = ["Subscribe", "AutoBind", "Unsubscribe", "DropOwner", "RaiseBegin",
-           "Return", "RaiseSimple"]
+ACTIONS = ["Subscribe", "AutoBind", "Unsubscribe", "UnsubscribeMany", "ClearAll",
+           "DropOwner", "RaiseBegin", "Return", "RaiseSimple"]
 
 # TLC prints "<Name line a, col b to line c, col d of module M (l c l c)>: x:y"
 # for actions whose body is a LET; engine/tlc.py only parses the form without
@@ -118,6 +118,7 @@ def drive(arg):
   had_sub = set()
   running = []              # owners of the handlers running, innermost last
   nsub = 0
+  last_auto = 0             # spec id of the first subscription of the last AutoBind
   tr = []
   alltypes = list(types) + ["U"]
   weak_owner = rnd.choice(owners + ["none"])   # only ever subscribed weakly: may die
@@ -143,6 +144,32 @@ def drive(arg):
         o = rnd.choice(alive)
         weak = o == weak_owner or rnd.random() < 0.3
         a, args = "AutoBind", dict(o=o, prio=rnd.choice([1, 2]), weak=weak)
+      elif k < 0.575:
+        # removeListeners(list): mixed forms, live / stale / never-issued /
+        # duplicate entries, or exactly what the last autoBind returned
+        if last_auto and rnd.random() < 0.3:
+          items = [dict(mode="pair", o="-", m="-", t=t, id=last_auto + i)
+                   for i, t in enumerate(sorted(types))]
+          if rnd.random() < 0.3:
+            rnd.shuffle(items)
+        else:
+          items = []
+          for _i in range(rnd.choice([0, 1, 2, 2, 2, 3, 3, 4])):
+            mode = rnd.choice(["handler", "eid", "pair"])
+            it = dict(mode=mode, o="-", m="-", t="-", id=0)
+            if mode == "handler" and alive:
+              it["o"] = rnd.choice(alive)
+              it["m"] = rnd.choice(["h", "h", rnd.choice(types)])
+            else:
+              if mode == "handler":
+                it["mode"] = mode = "eid"
+              it["id"] = rnd.randint(max(1, nsub - 4), nsub + 1)
+              if mode == "pair":
+                it["t"] = rnd.choice(types)
+            items.append(it)
+        a, args = "UnsubscribeMany", dict(items=items)
+      elif k < 0.583:
+        a, args = "ClearAll", dict(x=0)
       elif k < 0.65:
         mode = rnd.choice(MODES)
         args = dict(mode=mode, o="-", m="-", t="-", id=0)
@@ -187,6 +214,7 @@ def drive(arg):
         if not args["weak"]:
           strong_ever.add(args["o"])
       elif a == "AutoBind" and obs["k"] == "auto":
+        last_auto = nsub + 1
         nsub += len(types)
         had_sub.add(args["o"])
         if not args["weak"]:
@@ -216,6 +244,8 @@ def trace_signature(ev):
     sig["observed"] = ev["obs"]["k"]
   if a == "Unsubscribe":
     sig["mode"] = args["mode"]
+  if a == "UnsubscribeMany":
+    sig["modes"] = sorted(set(it["mode"] for it in args["items"]))
   if a == "Subscribe":
     sig["weak"] = args["weak"]
   if a in ("RaiseBegin", "RaiseSimple"):
